@@ -7,12 +7,12 @@ From SL Require Import Tac.
 From SL Require Import PyInt LoopSem ScreenSem ScreenMon proofs.InputLink.
 Import ListNotations.
 
-Lemma chk_all_C06n quit nosep w e : chk_all false quit nosep w e = true -> chk_C06_noargs w e = true.
+Lemma chk_all_C06n fresh quit nosep w e : chk_all false fresh quit nosep w e = true -> chk_C06_noargs w e = true.
 Proof.
   unfold chk_all, mchk_all. intros H. rewrite chk06n_abs.
   apply andb_true_iff in H. destruct H as [H _]. apply andb_true_iff in H. destruct H as [_ H]. exact H.
 Qed.
-Lemma chk_all_C06 quit nosep w e : chk_all true quit nosep w e = true -> chk_C06 w e = true.
+Lemma chk_all_C06 fresh quit nosep w e : chk_all true fresh quit nosep w e = true -> chk_C06 w e = true.
 Proof.
   unfold chk_all, mchk_all. intros H. rewrite chk06_abs.
   apply andb_true_iff in H. destruct H as [H _]. apply andb_true_iff in H. destruct H as [_ H]. exact H.
@@ -23,15 +23,15 @@ Theorem lines_delivered specs specl typed quit run_empty fuel acts :
   sok chk_C06_noargs typed (rev (trace (snd (app_run_all specs specl typed quit run_empty fuel acts)))) = true.
 Proof.
   intros HS WF. eapply sok_weaken; [apply chk_all_C06n|].
-  apply (all_accepted false (fun _ => 0) specs specl typed quit run_empty fuel acts HS WF).
+  apply (all_accepted false false (fun _ => 0) specs specl typed quit run_empty fuel acts HS WF).
 Qed.
 
 Theorem lines_delivered_args fargs specs specl typed quit run_empty fuel acts :
-  (forall n, specs n = nth n specl default_spec) -> wf_session_gen true fargs specl quit acts = true ->
+  (forall n, specs n = nth n specl default_spec) -> wf_session_gen true false fargs specl quit acts = true ->
   sok chk_C06 typed (rev (trace (snd (app_run_all specs specl typed quit run_empty fuel acts)))) = true.
 Proof.
   intros HS WF. eapply sok_weaken; [apply chk_all_C06|].
-  apply (all_accepted true fargs specs specl typed quit run_empty fuel acts HS WF).
+  apply (all_accepted true false fargs specs specl typed quit run_empty fuel acts HS WF).
 Qed.
 
 (* chk_C06 is chk_C06_noargs plus the comparison of the arguments *)
